@@ -1,4 +1,125 @@
-import Model.Counts
+import Proofs.C03b
+/-!
+# C03 — transition counts equal the exact number of lagged state pairs
+
+Model: `Model/Counts.lean` (`transitionsHelper`, `assignsToCounts`, mirroring
+`enspara/msm/transition_matrices.py`), slices via `Model/PySlice.lean`.
+Every theorem is for all row sets, all lengths (including shorter than the lag), all lags ≥ 1,
+both window modes.
+-/
 namespace C03
-theorem placeholder : True := trivial
+open Ens Ens.Counts
+
+/-- `_transitions_helper` never fails (its two views always have equal length) and returns exactly
+the pairs `(a[t], a[t+lag])` for `t = 0, s, 2s, …` with `t + lag < |a|` (s = 1 sliding, s = lag not). -/
+theorem helper_eq_spec (a : List Int) (lag : Nat) (sliding : Bool) (hlag : 1 ≤ lag) :
+    transitionsHelper a lag sliding = .ok (lagPairs a lag (stepOf lag sliding)) :=
+  transitionsHelper_eq a lag sliding hlag
+
+/-- every reported pair consists of two frames of the SAME row, `lag` apart (no pair spans rows) -/
+theorem pairs_inside_row (a : List Int) (lag : Nat) (sliding : Bool) (hlag : 1 ≤ lag) (k : Nat)
+    (hk : k < (lagPairs a lag (stepOf lag sliding)).length) :
+    k * stepOf lag sliding + lag < a.length ∧
+    (lagPairs a lag (stepOf lag sliding))[k]? =
+      some (a.getD (k * stepOf lag sliding) default, a.getD (k * stepOf lag sliding + lag) default) := by
+  have hs : 1 ≤ stepOf lag sliding := by unfold stepOf; cases sliding <;> simp [hlag]
+  rw [lagPairs_length] at hk
+  refine ⟨nPairs_pos_lt _ _ _ _ hs hk, ?_⟩
+  simp [lagPairs, hk]
+
+/-- the guard on the lag time -/
+theorem lag_guard (rows : List (List Int)) (lag : Int) (maxN : Option Nat) (sliding : Bool) (h : lag < 1) :
+    (assignsToCounts rows lag maxN sliding).toOption.isNone := by
+  simp [assignsToCounts, h, bind, Except.bind, throw, throwThe, MonadExceptOf.throw, Except.toOption]
+
+/-- Entry (i, j) of the count matrix is the number of lagged pairs, over all rows with `-1` dropped,
+whose states are i and j; the matrix has the requested size. -/
+theorem counts_entry (rows : List (List Int)) (lag : Nat) (n : Nat) (sliding : Bool) (hlag : 1 ≤ lag)
+    (c : CountMat) (h : assignsToCounts rows (lag : Int) (some n) sliding = .ok c) :
+    c.n = n ∧ ∀ i j : Nat, c.entry i j = countPair (specPairs rows lag sliding) i j := by
+  have hl : ¬ ((lag : Int) < 1) := by omega
+  simp only [assignsToCounts, hl, if_false, Int.toNat_natCast, allPairs_eq rows lag sliding hlag,
+    bind, Except.bind, pure, Except.pure] at h
+  split at h
+  · cases h
+  · cases h
+    exact ⟨rfl, fun _ _ => rfl⟩
+
+/-- the returned table is square: n rows of n entries -/
+theorem counts_square (c : CountMat) :
+    c.toLists.length = c.n ∧ ∀ r ∈ c.toLists, r.length = c.n := by
+  constructor
+  · simp [CountMat.toLists, tabulate]
+  · intro r hr
+    simp only [CountMat.toLists, tabulate, List.mem_map, List.mem_range] at hr
+    obtain ⟨i, _, rfl⟩ := hr
+    simp
+
+/-- additivity over sets of trajectories -/
+theorem counts_additive (A B : List (List Int)) (lag : Nat) (sliding : Bool) (i j : Int) :
+    countPair (specPairs (A ++ B) lag sliding) i j
+      = countPair (specPairs A lag sliding) i j + countPair (specPairs B lag sliding) i j := by
+  rw [specPairs_append, countPair_append]
+
+/-- any reordering of the trajectories gives the same counts -/
+theorem counts_perm (A B : List (List Int)) (h : A.Perm B) (lag : Nat) (sliding : Bool) (i j : Int) :
+    countPair (specPairs A lag sliding) i j = countPair (specPairs B lag sliding) i j :=
+  countPair_perm (specPairs_perm h lag sliding) i j
+
+/-- trailing `-1` padding of any row is ignored: padded rectangular = ragged -/
+theorem counts_padding (rows : List (List Int)) (pad : List Nat) (lag : Nat) (sliding : Bool)
+    (hp : pad.length = rows.length) :
+    specPairs (List.zipWith (fun r k => r ++ List.replicate k (-1)) rows pad) lag sliding
+      = specPairs rows lag sliding := by
+  unfold specPairs
+  congr 1
+  induction rows generalizing pad with
+  | nil => simp
+  | cons r rs ih =>
+    cases pad with
+    | nil => simp at hp
+    | cons k ks =>
+      simp only [List.zipWith_cons_cons, List.map_cons, dropPad_append_pad]
+      rw [ih ks (by simpa using hp)]
+
+/-- total under the sliding window: Σ over trajectories of max(0, length − lag) -/
+theorem counts_total_sliding (rows : List (List Int)) (lag : Nat) :
+    (specPairs rows lag true).length = (rows.map fun r => (dropPad r).length - lag).sum := by
+  rw [specPairs_length]
+  simp [stepOf, nPairs_one]
+
+/-- total without the sliding window: Σ ⌈max(0, length − lag) / lag⌉ -/
+theorem counts_total_strided (rows : List (List Int)) (lag : Nat) :
+    (specPairs rows lag false).length
+      = (rows.map fun r => ((dropPad r).length - lag + lag - 1) / lag).sum := by
+  rw [specPairs_length]
+  simp [stepOf, nPairs]
+
+/-- the matrix total equals the number of pairs (so the totals above are totals of the matrix) -/
+theorem counts_matrix_total (rows : List (List Int)) (lag : Nat) (n : Nat) (sliding : Bool) (hlag : 1 ≤ lag)
+    (c : CountMat) (h : assignsToCounts rows (lag : Int) (some n) sliding = .ok c) :
+    (∑ i ∈ Finset.range n, ∑ j ∈ Finset.range n, c.entry i j) = (specPairs rows lag sliding).length := by
+  have hl : ¬ ((lag : Int) < 1) := by omega
+  have he := (counts_entry rows lag n sliding hlag c h).2
+  simp only [assignsToCounts, hl, if_false, Int.toNat_natCast, allPairs_eq rows lag sliding hlag,
+    bind, Except.bind, pure, Except.pure] at h
+  split at h
+  · cases h
+  · rename_i hany
+    simp only [he]
+    apply sum_countPair
+    intro p hp
+    have : ¬ (p.1 < 0 ∨ p.2 < 0 ∨ p.1 ≥ (n:Int) ∨ p.2 ≥ (n:Int)) := by
+      intro hc
+      apply hany
+      rw [List.any_eq_true]
+      exact ⟨p, hp, by simpa using hc⟩
+    omega
+
+/-! Non-vacuity: a concrete run through the model (two rows, one padded, lag 2). -/
+example : (assignsToCounts [[0, 1, 0, 1, 1, -1], [2, 2, 0]] 2 (some 3) true).toOption.map CountMat.toLists
+    = some [[1, 1, 0], [0, 1, 0], [1, 0, 0]] := by decide
+example : (assignsToCounts [[0, 1, 0, 1, 1, -1], [2, 2, 0]] 2 (some 3) false).toOption.map CountMat.toLists
+    = some [[1, 1, 0], [0, 0, 0], [1, 0, 0]] := by decide
+
 end C03
